@@ -42,6 +42,17 @@ Proof.
   intros a b ca cb Ha Hb. rewrite G, Ha, Hb. reflexivity.
 Qed.
 
+(* ... any number of them: a row assembled from any list of balanced pieces shows exactly the
+   pieces' cells in order and ends in the default rendition *)
+Theorem C09_balanced_concat_all : forall pieces,
+  Forall (fun p => decode plain (fst p) = (snd p, plain)) pieces ->
+  decode plain (concat (map fst pieces)) = (concat (map snd pieces), plain).
+Proof.
+  induction pieces as [|[a ca] r IH]; intros H; [reflexivity|].
+  inversion H as [|? ? Ha Hr]; subst. cbn [map concat fst snd] in *.
+  apply C09_balanced_concat; [exact Ha | exact (IH Hr)].
+Qed.
+
 (* truncation (side-by-side panels, --max-line-length) keeps every escape sequence of the line,
    whole and in order, and adds those of the truncation mark only when it cuts: what was
    balanced before the cut stays balanced *)
